@@ -398,6 +398,8 @@ func workerMain(t *testing.T, w World, prop string) int {
 		}
 		if c.Harness != "" {
 			out.Harness = append(out.Harness, fmt.Sprintf("run %d seed %d: %s", i, rs, c.Harness))
+			_ = writeJSON(filepath.Join(od, "replay", fmt.Sprintf("%s-harness-%d.json", prop, rs)),
+				&ReplayFile{Property: prop, World: w.Name(), Seed: rs, BatchSeed: seed, RunIndex: uint64(i), Race: RaceEnabled, Plan: p, Events: c.Events})
 			if len(out.Harness) >= 3 {
 				break
 			}
@@ -411,6 +413,13 @@ func workerMain(t *testing.T, w World, prop string) int {
 		v := firstViolation(c, prop)
 		if v == nil {
 			continue
+		}
+		// prefer a violation that is not a known finding, if the run recorded several
+		for k := range c.Violations {
+			if c.Violations[k].Property == prop && matchKnown(known, &c.Violations[k]) == nil {
+				v = &c.Violations[k]
+				break
+			}
 		}
 		key := v.Kind + "@" + v.Site
 		if kf := matchKnown(known, v); kf != nil {
@@ -689,7 +698,7 @@ func coordMain(w World, prop string) int {
 		"stopped_by_wall_cap": hitCap, "workers": len(procs), "world": w.Name(),
 	}
 	if len(harness) == 0 || exit == ExitViolation {
-		if agg.Runs > 0 {
+		if agg.Runs > 0 && os.Getenv("VERIF_TRACE") == "" { // selftest trace batches never overwrite evidence
 			evDir := envStr("VERIF_EVIDENCE_DIR", filepath.Join(verifRoot(), "evidence"))
 			_ = os.MkdirAll(evDir, 0o755)
 			if err := writeJSON(filepath.Join(evDir, prop+".json"), ev); err != nil {
